@@ -145,6 +145,8 @@ pub enum Pre {
     None,
     Yield,
     Sleep(u64),
+    /// yield (fresh cooperative budget), then consume this many budget units without suspending
+    Coop(u64),
 }
 
 #[derive(Clone, Debug)]
